@@ -15,6 +15,11 @@ VERIF = os.path.dirname(os.path.abspath(__file__))
 REPO = os.environ.get("VERIF_REPO", "/repo")
 BUILD = os.path.join(VERIF, "build")
 OUT = os.path.join(VERIF, "out")
+EVID = os.path.join(VERIF, "evidence")
+if os.environ.get("VERIF_SCRATCH"):      # runs against a mutated scratch tree must not clobber evidence / replays of the real tree
+    OUT = os.path.join(os.environ["VERIF_SCRATCH"], "out")
+    EVID = os.path.join(os.environ["VERIF_SCRATCH"], "evidence")
+    BUILD_SCRATCH = os.path.join(os.environ["VERIF_SCRATCH"], "build")
 NCPU = int(os.environ.get("VERIF_JOBS", str(os.cpu_count() or 4)))
 GUARD = "JSONCONS_VERIF_SIM"
 
@@ -78,12 +83,13 @@ def build_engine(name, quiet=False):
     spec = ENGINES[name]
     key = tree_hash([os.path.join(REPO, "include"), os.path.join(VERIF, "sim", "core"), os.path.join(VERIF, "sim", name)])
     key = hashlib.sha256((key + repr(spec) + repr(COMMON) + CXX).encode()).hexdigest()[:16]
-    bdir = os.path.join(BUILD, "%s-%s" % (name, key))
+    broot = BUILD_SCRATCH if os.environ.get("VERIF_SCRATCH") else BUILD
+    bdir = os.path.join(broot, "%s-%s" % (name, key))
     exe = os.path.join(bdir, "sim_" + name)
     if os.path.exists(exe):
         return exe
     # drop stale builds of this engine (disk is limited)
-    for old in glob.glob(os.path.join(BUILD, name + "-*")):
+    for old in glob.glob(os.path.join(broot, name + "-*")):
         shutil.rmtree(old, ignore_errors=True)
     os.makedirs(bdir, exist_ok=True)
     t0 = time.time()
@@ -467,16 +473,16 @@ CHECKS = {
     "C10": dict(level="exploration", parts=[("iosim", "c10", 1400, 14000), ("stacksim", "stack", 264, 1056)], cap=(600, 3000), timeout=300),
     "C15": dict(level="fault_enumeration", parts=[("patchsim", "c15", 2400, 120000)], cap=(600, 3000), timeout=120),
     "C20": dict(level="exploration", parts=[("threadsim", "c20", 320, 20000)], cap=(600, 3000), timeout=300),
-    "C19": dict(level="fault_enumeration", parts=[("allocsim", "all", 1083 + 49 * 14, 1083 + 49 * 250)], cap=(600, 3000), timeout=120),
+    "C19": dict(level="fault_enumeration", parts=[("allocsim", "all", 1083 + 57 * 80, 1083 + 57 * 1500)], cap=(600, 3000), timeout=120),
 }
 
 def write_evidence(cid, tier, seed, level, coverage, assumptions, wall, violations):
-    os.makedirs(os.path.join(VERIF, "evidence"), exist_ok=True)
+    os.makedirs(EVID, exist_ok=True)
     ev = {"property_id": cid, "tier": tier, "seed": seed, "level": level, "coverage": coverage,
           "assumptions": assumptions, "wall_s": round(wall, 2), "violations": violations}
-    tmp = os.path.join(VERIF, "evidence", cid + ".json.tmp")
+    tmp = os.path.join(EVID, cid + ".json.tmp")
     json.dump(ev, open(tmp, "w"), indent=1, sort_keys=True)
-    os.replace(tmp, os.path.join(VERIF, "evidence", cid + ".json"))
+    os.replace(tmp, os.path.join(EVID, cid + ".json"))
 
 def run_batch(exe, profile, seed, total, cap_s, outdir, workers=None, hashes=False, timeout=120, resumable=False):
     workers = workers or NCPU
@@ -528,6 +534,7 @@ def do_check(cid, tier, seed):
     reported = {}
     known_hit = {}
     servers = {}
+    extra_classes = set()
     try:
         for engine, exe, cls, plan, detail in found:
             if cls.startswith("harness:"):
@@ -538,6 +545,10 @@ def do_check(cid, tier, seed):
                 continue
             if cls in reported:
                 reported[cls]["count"] += 1; continue
+            if len(reported) >= int(os.environ.get("VERIF_MAX_CLASSES", "8")):
+                # one defect often shows up under many site-specific classes; the first few are minimised and gated,
+                # the rest are only counted (they still make the check fail through the ones already reported)
+                extra_classes.add(cls); continue
             if engine not in servers:
                 servers[engine] = Server(exe, outdir, timeout=spec.get("timeout", 120))
             srv = servers[engine]
@@ -569,6 +580,8 @@ def do_check(cid, tier, seed):
             rc = max(rc, 1)
     finally:
         for srv in servers.values(): srv.close()
+    if extra_classes:
+        print("(%d further violation class(es) not minimised: %s ...)" % (len(extra_classes), ", ".join(sorted(extra_classes))[:600]))
     for kid, (k, cnt) in sorted(known_hit.items()):
         print("KNOWN-FINDING: property=%s %s [%s, hit %d times]" % (cid, k["what"], kid, cnt))
     wall = time.time() - t0
